@@ -599,6 +599,94 @@ namespace
         res.nontrivial = exhausted && refilled;
     }
 
+    // an element whose constructor allocates from the same pool (a chain node that creates its successor): create() is
+    // re-entered while the outer object is under construction
+    struct Nested
+    {
+        Nested *child = nullptr;
+        int tag;
+        unsigned char raw[12];
+        Nested(void *pool, int depth, int *tagc);
+        ~Nested() { g_life.died(this); }
+    };
+    typedef igris::static_object_pool<Nested, 6> NestedPool;
+    Nested::Nested(void *pool, int depth, int *tagc) : tag(++*tagc)
+    {
+        g_life.born(this, tag);
+        for (size_t i = 0; i < sizeof raw; i++) raw[i] = pat((uint64_t)tag, i);
+        if (depth > 0) child = ((NestedPool *)pool)->create(pool, depth - 1, tagc);
+    }
+    void run_sop_nested(const Plan &p, Trace &tr, Result &res)
+    {
+        g_life.live.clear();
+        const size_t Cap = 6;
+        std::unique_ptr<NestedPool> pool(new NestedPool());
+        const size_t slot = sizeof(NestedPool::storage_type);
+        char *lo = (char *)pool->storage.data(), *hi = lo + Cap * slot;
+        std::map<char *, int> live; // cell -> tag
+        int tagc = 0;
+        bool exhausted = false, refilled = false, nested = false;
+        auto adopt = [&](Nested *n) {
+            // everything a create() call produced: the object and the chain hanging off it
+            for (; n; n = n->child)
+            {
+                char *b = (char *)n;
+                if (b < lo || b + sizeof(Nested) > hi || (size_t)(b - lo) % slot != 0) violate("C10/pool-outside-arena@static_object_pool", "nested create: object at offset %td is not a cell of the pool", b - lo);
+                if (live.count(b)) violate("C10/pool-overlap@static_object_pool", "nested create: cell %td handed out twice (an object was constructed over a live one)", (b - lo) / (ptrdiff_t)slot);
+                live[b] = n->tag;
+            }
+        };
+        auto check = [&](const char *when) {
+            if (pool->avail() != Cap - live.size()) violate("C10/pool-avail@static_object_pool", "%s: avail()=%zu, capacity %zu minus %zu live objects (nested create)", when, pool->avail(), Cap, live.size());
+            if (g_life.live.size() != live.size()) violate("C10/object-lifetime", "%s: %zu objects alive, %zu known to the clients (nested create)", when, g_life.live.size(), live.size());
+            if (live.size() > Cap) violate("C10/pool-over-capacity@static_object_pool", "%s: %zu live objects in a pool of %zu", when, live.size(), Cap);
+            for (auto &kv : live)
+                for (size_t i = 0; i < sizeof(((Nested *)0)->raw); i++)
+                    if (((Nested *)kv.first)->raw[i] != pat((uint64_t)kv.second, i)) violate("C10/static_object_pool-content-clobbered", "%s: byte %zu of a live chain node changed", when, i);
+        };
+        check("init");
+        for (auto &o : p.ops)
+        {
+            int k = (int)mod(arg(o, 0), 4);
+            if (k == 0)
+            {
+                int depth = (int)mod(arg(o, 1), 4);
+                size_t before = live.size();
+                Nested *n = pool->create((void *)pool.get(), depth, &tagc);
+                if (before == Cap)
+                {
+                    exhausted = true;
+                    fault("pool_exhausted");
+                    if (n) violate("C10/pool-over-capacity@static_object_pool", "full pool handed out another object (nested create)");
+                }
+                else if (!n) violate("C10/pool-null-before-capacity@static_object_pool", "pool answered null with %zu of %zu live (nested create)", before, Cap);
+                adopt(n);
+                if (n && n->child) { nested = true; probe("constructor_allocates_from_same_pool"); }
+                if (exhausted && n) refilled = true;
+                tr.ev("create chain depth %d -> %zu live", depth, live.size());
+            }
+            else if (!live.empty())
+            {
+                auto it = live.begin();
+                std::advance(it, (long)mod(arg(o, 2), (int64_t)live.size()));
+                Nested *n = (Nested *)it->first;
+                // children stay alive (they are independent objects of the same client); forget the link
+                live.erase(it);
+                pool->destroy(n);
+                tr.ev("destroy -> %zu live", live.size());
+            }
+            check("after op");
+        }
+        while (!live.empty())
+        {
+            Nested *n = (Nested *)live.begin()->first;
+            live.erase(live.begin());
+            pool->destroy(n);
+        }
+        check("drained");
+        res.nontrivial = nested && exhausted && refilled;
+    }
+
     struct SopWorld : World
     {
         const char *name() const override { return "static_object_pool<T,N>"; }
@@ -607,7 +695,7 @@ namespace
         {
             Plan p;
             int nc = (int)r.range(2, 4);
-            p.cfg = {nc, (int64_t)r.below(10), (int64_t)r.below(3)};
+            p.cfg = {nc, (int64_t)r.below(11), (int64_t)r.below(3)};
             int n = (int)r.range(4, tier == THOROUGH ? 100 : 45);
             int phase = 0, left = 0;
             for (int i = 0; i < n; i++)
@@ -624,14 +712,19 @@ namespace
         }
         std::string describe(const Plan &p) override
         {
-            static const char *tn[] = {"4B/align4", "8B/align8", "12B/align4", "20B/align4", "9B/align1", "24B/align8", "3B/align1", "32B/align32", "64B/align64", "16B/align16"};
+            static const char *tn[] = {"4B/align4", "8B/align8", "12B/align4", "20B/align4", "9B/align1", "24B/align8", "3B/align1", "32B/align32", "64B/align64", "16B/align16", "chain node whose constructor creates its successor from the same pool"};
             static const int caps[] = {1, 5, 9};
-            return std::string("element ") + tn[mod(p.c(1), 10)] + " capacity " + std::to_string(caps[mod(p.c(2), 3)]) + " " + plan_to_json(p);
+            return std::string("element ") + tn[mod(p.c(1), 11)] + " capacity " + std::to_string(caps[mod(p.c(2), 3)]) + " " + plan_to_json(p);
         }
         Result execute(const Plan &p, Trace &tr) override
         {
             Result res;
-            int t = (int)mod(p.c(1), 10), c = (int)mod(p.c(2), 3);
+            int t = (int)mod(p.c(1), 11), c = (int)mod(p.c(2), 3);
+            if (t == 10)
+            {
+                run_sop_nested(p, tr, res);
+                return res;
+            }
 #define SOP_CASE(TI, N, A)                                                                                   \
     if (t == TI)                                                                                             \
     {                                                                                                        \
